@@ -113,25 +113,38 @@ def mon_C14(s):
 
 
 def mon_C05(s):
-    if not any(o["op"] == "persist" or o.get("persist_first") for o in s["ops"]):
-        return []
-    imp = core.Impl()
     out = []
-    j = 0
+    fin = "D2" if monitors.has_count_join_below_all(s) else None
+    if any(o["op"] == "persist" or o.get("persist_first") for o in s["ops"]):
+        imp = core.Impl()
+        for i, o in enumerate(s["ops"]):
+            if o["op"] == "persist":
+                continue
+            if o.get("persist_first"):
+                o = {k: v for k, v in o.items() if k != "persist_first"}
+            r = imp.play(o)
+            a = json.loads(core.dumps(r))
+            b = json.loads(core.dumps(s["replies"][i]))
+            d = core.first_diff(b, a)
+            if d:
+                out.append(V("persisted run differs from the never-persisted run: %s" % d[:200], i, fin))
+                break
+    if out:
+        return out
+    # the other twin: the conductor is persisted and restored after every operation, so nothing
+    # two of its structures share in memory survives from one operation to the next
+    imp = core.Impl()
     for i, o in enumerate(s["ops"]):
         if o["op"] == "persist":
             continue
-        if o.get("persist_first"):
-            o = {k: v for k, v in o.items() if k != "persist_first"}
         r = imp.play(o)
         a = json.loads(core.dumps(r))
         b = json.loads(core.dumps(s["replies"][i]))
         d = core.first_diff(b, a)
         if d:
-            fin = "D2" if monitors.has_count_join_below_all(s) else None
-            out.append(V("persisted run differs from the never-persisted run: %s" % d[:200], i, fin))
+            out.append(V("run differs from the run persisted after every operation: %s" % d[:200], i, fin))
             break
-        j += 1
+        imp.play({"op": "persist"})
     return out
 
 
